@@ -18,7 +18,7 @@ use crate::operator::{
     IntoOpResult, OpError, OpRunContext, Operator, OutputList, OutputType, OutputTypeList,
     OutputTypesContext, PrepackedInput, static_dims,
 };
-use crate::ops::binary_elementwise::broadcast_shapes;
+use crate::ops::binary_elementwise::{add, broadcast_shapes};
 use crate::ops::layout::expand_to;
 use crate::shift_cast::ShiftCast;
 use crate::value::{DataType, ValueType, ValueView};
@@ -477,9 +477,22 @@ impl Operator for FusedMatMul {
             _ => None,
         };
 
-        let bias = inputs
-            .get_as::<NdTensorView<f32, 1>>(2)?
-            .map(|b| b.to_contiguous_in(ctx.pool()));
+        let bias = inputs.get_as::<NdTensorView<f32, 1>>(2)?;
+
+        // The fused bias holds one value per output column. A bias vector of
+        // a different length (eg. a single element that is broadcast) is
+        // combined with the product as the unfused `Add(MatMul(a, b), bias)`
+        // would do.
+        let b: TensorView<f32> = b;
+        let out_cols = if b.ndim() >= 2 { b.size(b.ndim() - 1) } else { 1 };
+        if let Some(bias) = bias.as_ref()
+            && bias.size(0) != out_cols
+        {
+            let product = matmul_fused(ctx.pool(), a, b, packed_b, None, self.alpha)?;
+            return add(ctx.pool(), product.view(), bias.as_dyn()).into_op_result();
+        }
+
+        let bias = bias.map(|b| b.to_contiguous_in(ctx.pool()));
         let bias = bias.as_ref().map(|b| BiasVector::Row(b.data()));
 
         matmul_fused(ctx.pool(), a, b, packed_b, bias, self.alpha).into_op_result()
@@ -834,7 +847,7 @@ mod tests {
     use crate::buffer_pool::AutoReturn;
     use crate::buffer_pool::BufferPool;
     use crate::operator::{InputList, Operator, OutputMask};
-    use crate::ops::binary_elementwise::broadcast_shapes;
+    use crate::ops::binary_elementwise::{add, broadcast_shapes};
 
     use super::{
         FusedMatMul, MatMul, MatMulInteger, MatmulStrategy, OpError, OpRunContext, OutputScale,
